@@ -67,6 +67,59 @@ CHECKS["C13"] = dict(
     ref="5/C13", note="Trusted: TLC, replay harness. Probes never sit exactly on +-1e-3 A (undecidable in floats); "
                       "accepted negative pilots only on a vacant station.")
 
+CHECKS["C06"] = dict(
+    text="Feasibility.tla transcribes 'feasible' into exact integer arithmetic (every constraint and period: phasor "
+         "magnitude <= limit + max(atol, rtol*limit); exact quadratic forms for the angle families {30,-90,150}, "
+         "{0,+-120} and collinear). TLC proves LinearConservative, NoConstraintsAcceptsAll, PeriodLocal, "
+         "CollinearAgrees and related theorems over the whole lattice and evaluates every case; each case is executed "
+         "through ChargingNetwork.is_feasible, Interface.is_feasible (dict form, dropped/permuted stations) and "
+         "algorithms.utils.infrastructure_constraints_feasible and must give the spec's verdict and magnitude. A "
+         "constraint-free network is driven through the Interface and the real schedulers.",
+    tech="TLA+ spec (Feasibility.tla) + TLC theorems over an exact lattice + one implementation test per TLC case",
+    ref="5/C06", note="Trusted: TLC, Json module (the harness recomputes every row verdict with Fractions and aborts as "
+                      "machinery failure on disagreement). Limits >= 0; verdicts compared on decisive cases only (exact "
+                      "distance to the bound >= 1e-9 relative); units 1e-6 A on collinear rows, 0.1 A on phasor rows.")
+CHECKS["C19"] = dict(
+    text="StochasticNet.tla models StochasticNetwork as Simulator.run drives it (PluginStoch with ANY free station, "
+         "PluginWait, UnplugWaiting/Connected/Gone, EarlyDeparture). TLC checks ExactlyOnePlace, NoTwoInOneStation, "
+         "NoWaitWhileFree, FIFOAdmission, NeverChargedCounted, AllGoneAtEnd over every scenario, event order and "
+         "free-station choice within the constants, and Termination under weak fairness. Every emitted behaviour is "
+         "replayed through the real Simulator+StochasticNetwork with random.choice returning the spec's station; "
+         "runs with real random seeds under real schedulers are validated in batch by TLC against "
+         "StochasticNetTrace.tla, and equal seeds must give identical traces.",
+    tech="TLA+ spec (StochasticNet.tla) + TLC invariants/action property/liveness + spec-to-code replay + "
+         "code-to-spec batch trace validation",
+    ref="5/C19", note="Trusted: TLC/SANY, Json/IOUtils, the recording subclass. arrival >= 0, departure > arrival; "
+                      "ideal battery with capacity = request in replay; tie order among equal (timestamp, precedence) "
+                      "events is an input; early departures in station registration order (other legal orders are "
+                      "counted non-decisive, never alarmed).")
+CHECKS["C20"] = dict(
+    text="DataClient.tla models the paging protocol (Pull, First, Yield, Follow, Stop, Abandon, Count): TLC decides that "
+         "the yielded sequence is always a prefix of, and at the end equals, the concatenation of the pages, one request "
+         "per page visited, next links followed exactly, parameters sent, invalid sites rejected before any request, "
+         "laziness, and termination under fairness. DataClientTime.tla decides parse/format identity, same instant and "
+         "local fields for four zones in exact integer arithmetic over a lattice around DST transitions and a "
+         "day-by-day calendar walk. Every behaviour and lattice case is executed against the real DataClient (fake "
+         "transport) and acndata.utils.",
+    tech="TLA+ specs (DataClient.tla, DataClientTime.tla) + TLC invariants/liveness + exhaustive spec-to-code replay",
+    ref="5/C20", note="Trusted: TLC/SANY, Json, pytz as oracle for the four transcribed zones, the fake Eve-style "
+                      "server. Stateless well-formed server, no HTTP errors; whole seconds 1971-2037; filters without "
+                      "characters needing percent-encoding; parameter order not compared.")
+
+CHECKS["C12"] = dict(
+    text="Currents.tla keeps the same three parallel arrays as ChargingNetwork (matrix, limits, names), edited the same "
+         "way (add = concat + fill 0 + reindex, remove = delete first match, update = remove + append) next to a ghost "
+         "list of the constraints as stated; TLC checks Shape, RowsAligned, LimitsAligned, NamesAligned, QueryRows, "
+         "RegisterRefusedAfterConstraint, RefusedChangesNothing, UpdateIsRemoveAppend over every call sequence within "
+         "the bound, with Currents built by +, -, k*a, a*k (depth 2) from strings, lists, dicts. Every emitted "
+         "behaviour is replayed through the real ChargingNetwork/Current and compared after each call "
+         "(station_ids, constraint_matrix, constraints_as_df, magnitudes, constraint_index, constraint_current for "
+         "subsets of constraints and periods, every node of every Current expression).",
+    tech="TLA+ spec (Currents.tla) + TLC invariants/action properties + spec-to-code behaviour replay",
+    ref="5/C12", note="Trusted: TLC, Json module, pandas/numpy. Phase angle 0 on all stations (phasor geometry is C06); "
+                      "coefficients are multiples of 1/8 so float arithmetic is exact; time_indices ascending; values of "
+                      "Currents are compared, not their Python type; JSON round trips are exercised but owned by C09.")
+
 NOT_APPLICABLE = []
 
 
